@@ -457,6 +457,20 @@ def run(ctx):
             sig = [bi for bi, t in f.calls() if t.callee.is_("Config::signal_change")]
             rets = cfg.exits()
             ok = len(rep) == 1 and len(sig) == 1 and cfg.dominates(rep[0], sig[0]) and all(cfg.must_pass(0, [r], sig) for r in rets)
+            if not rep and not sig:
+                # replace-then-signal delegated to a private helper of Config (`self.set(&self.pathset, value)`): the helper must do both, in
+                # that order, on every path, and the setter must reach it on every path
+                for hb, ht in f.calls():
+                    hd = ht.callee.def_ or ""
+                    hf = facts.find_fn(strip_generics(hd)) or facts.find_fn(hd)
+                    if hf is None or hf.crate.name != "watchexec" or hf is f:
+                        continue
+                    hcfg = CFG(hf)
+                    hrep = [bi for bi, t in hf.calls() if t.callee.is_("Changeable::replace", "ChangeableFn::replace", "ChangeableFilterer::replace")]
+                    hsig = [bi for bi, t in hf.calls() if t.callee.is_("Config::signal_change")]
+                    if len(hrep) == 1 and len(hsig) == 1 and hcfg.dominates(hrep[0], hsig[0]) and all(hcfg.must_pass(0, [r], hsig) for r in hcfg.exits()) \
+                            and all(cfg.must_pass(0, [r], [hb]) for r in rets):
+                        ok = True
             name = f.def_.split("::")[-1]
             ctx.require(ok, "R13.6", "setter:" + name, "Config::%s replaces the value and then signals the change on every path" % name, f.loc(f.line),
                         fail="Config::%s does not (always) call signal_change after replacing the value: workers never learn about the new setting" % name)
